@@ -228,10 +228,10 @@ mod kernel {
 ///
 /// This function returns the value of ***x*** raised to the power of ***y***.
 pub fn pow(x: P32E2, y: P32E2) -> P32E2 {
-    if (y == ZERO) || (x == ONE) {
-        ONE
-    } else if x.is_nar() || y.is_nar() {
+    if x.is_nar() || y.is_nar() {
         P32E2::NAR
+    } else if (y == ZERO) || (x == ONE) {
+        ONE
     } else if x == ZERO {
         if -y < ZERO {
             ZERO
